@@ -325,7 +325,7 @@ func genProgram(tp *simrt.Tape, cfg gp.SimulatorConfig, legalPct int) textCase {
 	for i := 0; i < nLabels; i++ {
 		g.labels = append(g.labels, g.name("l"))
 	}
-	special := tp.Draw("prog.special", 28)
+	special := tp.Draw("prog.special", 34)
 	for i := 0; i < nItems; i++ {
 		g.item(0)
 	}
@@ -334,6 +334,23 @@ func genProgram(tp *simrt.Tape, cfg gp.SimulatorConfig, legalPct int) textCase {
 		g.emitInstr("")
 	}
 	switch special {
+	case 12: // a lone self-referential EQU in front of everything (also of the first FOR)
+		a := g.name("c")
+		g.lines = append([]string{a + " equ " + a + "+1"}, g.lines...)
+		if tp.Draw("selfref.for", 2) == 0 {
+			g.lines = append(g.lines, "for 2", "dat 0", "rof")
+		}
+		g.notes = append(g.notes, "equ-self-reference-first")
+	case 13: // more FOR blocks than the expander's pass limit
+		n := 12 + tp.Draw("manyfor.n", 4)
+		for i := 0; i < n; i++ {
+			g.lines = append(g.lines, "for 1", "nop", "rof")
+		}
+		g.expTok += 8 * n * n
+		g.notes = append(g.notes, "for-blocks-beyond-pass-limit")
+	case 14: // lexer error token inside an EQU value
+		g.lines = append([]string{g.name("q") + []string{" equ 1 = 2", " equ 3 & 1", " equ 2 |", " equ ="}[tp.Draw("equlexerr.kind", 4)]}, g.lines...)
+		g.notes = append(g.notes, "equ-with-lex-error")
 	case 0: // EQU cycle, optionally under an assertion
 		a, b := g.name("c"), g.name("c")
 		g.lines = append([]string{a + " equ " + b + "+1", b + " equ " + a}, g.lines...)
